@@ -522,7 +522,9 @@ type c08RQuery struct{}
 // c08RHen is a Resolver object that is no struct: a named map type (a document store's record).
 type c08RHen map[string]interface{}
 
-func (h c08RHen) Resolve(f *ggql.Field, _ map[string]interface{}) (interface{}, error) { return h[f.Name], nil }
+func (h c08RHen) Resolve(f *ggql.Field, _ map[string]interface{}) (interface{}, error) {
+	return h[f.Name], nil
+}
 
 func (d *c08RDog) Resolve(f *ggql.Field, _ map[string]interface{}) (interface{}, error) {
 	if f.Name == "barks" {
